@@ -326,7 +326,7 @@ func (a *adapter) CreateDb(reset bool) error {
 	}()
 
 	// Indexed users.
-	if _, err := tx.Exec(ctx,
+	if _, err = tx.Exec(ctx,
 		`CREATE TABLE users(
 			id        BIGINT NOT NULL,
 			createdat TIMESTAMP(3) NOT NULL,
